@@ -32,16 +32,19 @@ class AnchorLost(Exception):
 
 
 def expand_props(fn_path, props):
-    """tag closure rules (DESIGN.md 5): C16 (recovery from any reachable receiver state) is carried by every receiver-side
-    clause of the round trips C01 / C02, because its lemma is those clauses applied to an arbitrary state satisfying inv();
-    C20 likewise (its decapsulator conjunct)"""
+    """tag closure rules (DESIGN.md 3.2).
+    1. C16 (recovery from any reachable receiver state) is carried by every receiver-side clause of the round trips C01 / C02,
+       because its lemma is those clauses applied to an arbitrary state satisfying inv(); C20 likewise (its decapsulator conjunct).
+    2. C13 covers fragmented PDUs: once encap_ext has written the first fragment, the continuation runs through encap_frag,
+       decap_intermediate / decap_end, the reassembly memory and the CRC, so their C02 clauses carry C13 as well."""
     out = list(props)
     if fn_path.startswith('gse_decap') and ('C01' in out or 'C02' in out):
-        # C20's third conjunct ("what the decapsulator accepts with the same field values") is the receiver half of the
-        # round trips applied to the bytes utils::generate wrote (equal to the encapsulator's by lemma_c20_*_unique)
         for extra in ('C16', 'C20'):
             if extra not in out:
                 out.append(extra)
+    if 'C02' in out and 'C13' not in out and (fn_path.startswith(('gse_encap::Encapsulator::encap_frag', 'gse_decap::Decapsulator::decap_intermediate',
+            'gse_decap::Decapsulator::decap_end', 'gse_decap::Decapsulator::decap', 'gse_decap::gse_decap_memory::', 'crc::'))):
+        out.append('C13')
     return out
 
 
